@@ -44,11 +44,28 @@ fn base_logical(r: &mut Rng, cfg: &Cfg, carrier: Carrier) -> Logical {
 
 /// One probe: request instant t, server instant now, optional explicit rendering.
 fn probe(t: &mut Tally, l: &mut Logical, cfg: &Cfg, tt: Inst, now: Inst, text: Option<String>, label: &str, sr: &mut Rng) -> Option<bool> {
+    probe_with(t, l, cfg, tt, now, text, label, sr, None)
+}
+
+/// `decoy`: a second date value on the other side of the window that must not influence the decision — a `Date`
+/// header next to the effective X-Amz-Date header, or a later X-Amz-Date query parameter (the first one counts).
+#[allow(clippy::too_many_arguments)]
+fn probe_with(t: &mut Tally, l: &mut Logical, cfg: &Cfg, tt: Inst, now: Inst, text: Option<String>, label: &str, sr: &mut Rng, decoy: Option<Inst>) -> Option<bool> {
     l.t = tt;
-    let ov = Overrides {
+    let mut ov = Overrides {
         ts_text: Some(text.unwrap_or_else(|| render_ts(tt, false, 0, 0, false, false, 0))),
         ..Default::default()
     };
+    if let Some(d) = decoy {
+        if l.carrier == Carrier::Header {
+            if l.date_mode != 0 || l.signed.iter().any(|s| s == "date") {
+                return None;
+            }
+            ov.extra_raw_headers.push((b"date".to_vec(), d.compact().into_bytes()));
+        } else {
+            ov.query_suffix_raw = format!("X-Amz-Date={}", d.compact()).into_bytes();
+        }
+    }
     let mut sp = Speller {
         r: sr,
         level: 0,
@@ -133,8 +150,9 @@ fn shard(seed: u64, shard: u64, shards: u64, tier: Tier) -> Tally {
     let cfg = Cfg {
         region: "us-east-1".into(),
         service: "service".into(),
-        s3: false,
-        fold: false,
+        // all four option combinations (the window does not depend on them)
+        s3: (shard / 2) % 2 == 1,
+        fold: (shard / 4) % 2 == 1,
         reqs: Reqs {
             build: 3,
             ..Default::default()
@@ -151,6 +169,24 @@ fn shard(seed: u64, shard: u64, shards: u64, tier: Tier) -> Tally {
     };
     let mut l = base_logical(&mut r, &cfg, carrier);
     l.date_mode = (shard % 3 == 2) as u8; // now and then the Date header carries the time
+    // a presigned-URL style lifetime parameter (or header) is an ordinary signed parameter to this verifier: the window
+    // stays ±15 min whatever it says
+    match shard % 8 {
+        2 | 3 | 4 => {
+            let v = *r.pick(&["0", "1", "60", "900", "3600", "86400", "604800", "-1", "abc"]);
+            l.url_pairs.push((b"X-Amz-Expires".to_vec(), v.as_bytes().to_vec()));
+            t.count("with_x_amz_expires_parameter");
+        }
+        5 => {
+            let v = *r.pick(&["60", "86400", "604800"]);
+            l.extra.push(("x-amz-expires".to_string(), vec![v.as_bytes().to_vec()]));
+            l.signed.push("x-amz-expires".to_string());
+            l.signed.sort();
+            l.signed.dedup();
+            t.count("with_x_amz_expires_header");
+        }
+        _ => {}
+    }
     let present = crate::gen::present_header_names(&l);
     l.signed.retain(|s| present.contains(s));
     let mut sr = Rng::keyed(seed, "C04", "spell", shard, 0);
@@ -257,6 +293,77 @@ fn shard(seed: u64, shard: u64, shards: u64, tier: Tier) -> Tally {
         let text = render_ts(tt, r.coin(), r.range(-56, 56) * 15, r.below(2) as u8, r.coin(), r.coin(), r.usize_below(4));
         probe(&mut t, &mut l, &cfg, tt, now, Some(text), "random", &mut sr);
     }
+    // --- far outside: hours, days, years, and the distances at which 32-/64-bit second or nanosecond counters wrap
+    const FAR_S: [i64; 16] = [
+        3_600,
+        86_400,
+        7 * 86_400,
+        365 * 86_400,
+        2_147_483_647,
+        2_147_483_648,
+        4_294_967_296,
+        9_223_372_036,
+        9_223_372_037,
+        9_223_372_038,
+        9_467_000_000,
+        18_446_744_073,
+        18_446_744_074,
+        31_556_952_000,
+        94_670_856_000,
+        157_784_760_000,
+    ];
+    for i in 0..tier.n(400, 20_000) {
+        let mut r = Rng::keyed(seed, "C04", "far", shard, i);
+        let now = Inst {
+            s: r.range(-50_000_000_000, 200_000_000_000),
+            ns: *r.pick(&SUBSEC),
+        };
+        let base = *r.pick(&FAR_S);
+        let sign = if r.coin() {
+            1i128
+        } else {
+            -1
+        };
+        let wobble: i128 = *r.pick(&[0i128, 1, -1, 900_000_000_000, -900_000_000_000, 900_000_000_001, 500_000_000, -86_400_000_000_000, 86_400_000_000_000]);
+        let delta = sign * (base as i128) * 1_000_000_000 + wobble;
+        let tt = now.plus_ns(delta);
+        if !(2..=9997).contains(&tt.year()) || !(2..=9997).contains(&now.year()) {
+            t.count("far/out_of_calendar_range");
+            continue;
+        }
+        let text = render_ts(tt, r.coin(), r.range(-8, 8) * 60, r.below(2) as u8, r.coin(), false, r.usize_below(2));
+        probe(&mut t, &mut l, &cfg, tt, now, Some(text), "far", &mut sr);
+    }
+    // --- a second date value on the other side of the window must not change the decision
+    for i in 0..tier.n(600, 30_000) {
+        let mut r = Rng::keyed(seed, "C04", "decoy", shard, i);
+        let now = Inst {
+            s: r.range(0, 4_000_000_000),
+            ns: *r.pick(&SUBSEC),
+        };
+        let outside = r.coin();
+        let bound: i128 = if r.coin() {
+            900_000_000_000
+        } else {
+            -900_000_000_000
+        };
+        let (d_eff, d_decoy): (i128, i128) = if outside {
+            // effective value just outside (or far outside), decoy fresh
+            (bound + bound.signum() * *r.pick(&[1i128, 1_000_000_000, 60_000_000_000, 86_400_000_000_000]), r.range(-600, 600) as i128 * 1_000_000_000)
+        } else {
+            // effective value inside (or exactly on a bound), decoy stale / far in the future
+            let inner = r.range(-800, 800) as i128 * 1_000_000_000;
+            (*r.pick(&[0i128, bound, bound - bound.signum(), inner]), -bound.signum() * *r.pick(&[900_000_000_001i128, 3_600_000_000_000, 86_400_000_000_000 * 400]))
+        };
+        let tt = now.plus_ns(d_eff);
+        let decoy = now.plus_ns(d_decoy);
+        let label = if outside {
+            "decoy/effective-outside"
+        } else {
+            "decoy/effective-inside"
+        };
+        probe_with(&mut t, &mut l, &cfg, tt, now, None, label, &mut sr, Some(decoy));
+    }
     t
 }
 
@@ -283,11 +390,15 @@ pub fn run(tier: Tier) -> i32 {
     ctx.gate("grid probes inside", tally.get("grid/full/inside") + tally.get("grid/bounds/inside"), tier.n(5_000, 100_000));
     ctx.gate("grid probes expired", tally.get("grid/full/expired") + tally.get("grid/bounds/expired"), tier.n(2_000, 20_000));
     ctx.gate("grid probes not yet valid", tally.get("grid/full/not-yet") + tally.get("grid/bounds/not-yet"), tier.n(2_000, 20_000));
+    ctx.gate("far-outside probes (hours … centuries, 32-/64-bit wrap distances) refused as expired / not yet current", tally.get("far/expired") + tally.get("far/not-yet"), tier.n(5_000, 200_000));
+    ctx.gate("probes with a second date value on the other side of the window: effective value outside, refused", tally.get("decoy/effective-outside/expired") + tally.get("decoy/effective-outside/not-yet"), tier.n(3_000, 100_000));
+    ctx.gate("probes with a second date value on the other side of the window: effective value inside", tally.get("decoy/effective-inside/inside"), tier.n(1_000, 50_000));
+    ctx.gate("shards whose requests carry an X-Amz-Expires parameter / header", tally.get("with_x_amz_expires_parameter") + tally.get("with_x_amz_expires_header"), 16);
     ctx.exhaustive("whole-second offsets −1200…+1200 × 4×4 sub-second parts at the full-grid server instants", tier == Tier::Thorough);
     ctx.exhaustive("±2 s around both bounds × 4×4 sub-second parts at all 14 server instants, both carriers", true);
     let rep = Report {
         level: "exploration",
-        rule: "Grid of (request instant, server instant) pairs at nanosecond resolution: whole-second offsets in [−1200 s, +1200 s] × sub-second part ∈ {0, 1 ns, 0.5 s, 999 999 999 ns} on both sides, at server instants on day / month / year / leap-day boundaries and years 0002 / 9997; the six instants at and one nanosecond either side of both bounds for every server instant, each in many textual renderings (basic/extended, 15 UTC offsets incl. half/quarter hours, fraction lengths 0–12, ',' or '.'); both carriers; X-Amz-Date and Date headers; plus random (t, now) pairs at nanosecond resolution scattered around both bounds (exact, ±1 ns, ±200 ns, ±2 ms, ±2 s) and over the whole range, at random server instants of years 1906–8307, in random renderings. Every request is validly signed, so 'inside ⇒ accepted' is observable. Oracle: integer nanosecond arithmetic (no chrono), provider event log must be empty outside the window. Distinct = distinct (t, now, text) triples that were decided in agreement with the oracle.".into(),
+        rule: "Grid of (request instant, server instant) pairs at nanosecond resolution: whole-second offsets in [−1200 s, +1200 s] × sub-second part ∈ {0, 1 ns, 0.5 s, 999 999 999 ns} on both sides, at server instants on day / month / year / leap-day boundaries and years 0002 / 9997; the six instants at and one nanosecond either side of both bounds for every server instant, each in many textual renderings (basic/extended, 15 UTC offsets incl. half/quarter hours, fraction lengths 0–12, ',' or '.'); both carriers; X-Amz-Date and Date headers; plus random (t, now) pairs at nanosecond resolution scattered around both bounds (exact, ±1 ns, ±200 ns, ±2 ms, ±2 s) and over the whole range, at random server instants of years 1906–8307, in random renderings; far-outside pairs (±1 h … ±5000 years, including the distances at which 32-bit seconds, 64-bit nanoseconds and 2^64 ns wrap, each ± the window); pairs with a second, contradicting date value (a Date header next to X-Amz-Date, a later X-Amz-Date parameter); all four option combinations; requests carrying an X-Amz-Expires parameter or header (an ordinary signed parameter here). Every request is validly signed, so 'inside ⇒ accepted' is observable. Oracle: integer nanosecond arithmetic (no chrono), provider event log must be empty outside the window. Distinct = distinct (t, now, text) triples that were decided in agreement with the oracle.".into(),
         assumptions: vec!["server years 0002–9997 (beyond that chrono's own range arithmetic applies and the properties are silent)".into()],
         extra: J::obj().set("calibrated_vectors", J::i(pre.unwrap_or(0) as i64)),
     };
